@@ -122,6 +122,11 @@ pub fn generate(g: &mut Gen, thorough: bool) {
         // a missing time is NaN, which `cart` does not count (but converts)
         ("geo:in | cart", "55 12\n56 13 100\n57 14 0 2020\n"),
         ("cart", "0.2 0.9 10\n0.3 1 100 2020\n"),
+        // a line's numbers do not depend on the lines before it: the pole of a cone after other points, epochs
+        // changing from line to line
+        ("geo:in | lcc lat_1=33 lat_2=45 lon_0=10", "40 12\n90 10\n45 11\n90 -20\n90:00:00N 3\n"),
+        ("geo:in | lcc lat_1=-33 lon_0=10", "-40 12\n-90 10\n-45 11\n"),
+        ("geo:in | laea lat_0=90 lon_0=10", "80 12\n90 10\n85 11\n"),
     ] {
         for rt in [false, true] {
             for dim in [2, 4] {
